@@ -193,6 +193,61 @@ def traj_records(env, data, cfg, seed, nsteps, rid0):
     return digest.hexdigest(), srecs, orecs, rrecs
 
 
+def registry_part(ctx):
+    """behaviours of the GVRegistry machine replayed on fresh registry instances (conformance beyond the listed property: drift only)"""
+    from harness.tlc import tla_set
+    from gym_gridverse.envs.transition_functions import TransitionFunctionRegistry
+    from gym_gridverse.grid_object import GridObjectRegistry, Color
+
+    depth = 4 if ctx.quick else 5
+    cfg = write_cfg(os.path.join(ctx.work, 'GVRegistry.cfg'), constants={'Names': tla_set(['alpha', 'beta']), 'Depth': depth},
+                    invariants=['NamesUnique', 'LookupAfterRegister', 'Emit'])
+    res = run_tlc('GVRegistry', cfg=cfg, workers=4, timeout=1200)
+    ctx.add_tlc(res, f'GVRegistry: all operation sequences of length {depth}')
+    behs = [t[1] for t in res.find('REG')]
+    n = mism = 0
+    for beh in behs:
+        freg = TransitionFunctionRegistry()
+        oreg = GridObjectRegistry()
+        for (op, name, outcome, extra) in beh:
+            n += 1
+            got, val = 'ok', 0
+            try:
+                if op == 'register':
+                    def f(state, action, *, rng=None):
+                        return None
+                    f.__name__ = name
+                    freg.register(f)
+                elif op == 'register_bad_signature':
+                    def g(state, action):
+                        return None
+                    g.__name__ = name
+                    freg.register(g)
+                elif op == 'register_bad_arity':
+                    def g1(state):
+                        return None
+                    g1.__name__ = name
+                    freg.register(g1)
+                elif op == 'register_nothing':
+                    freg.register()
+                elif op == 'lookup':
+                    freg[name]
+                elif op == 'define_class':
+                    cls = type(name, (), {})
+                    oreg.register(cls)
+                    val = oreg.index(cls)
+                elif op == 'from_name':
+                    val = oreg.index(oreg.from_name(name))
+            except Exception as e:
+                got = type(e).__name__
+            if got != outcome or (outcome == 'ok' and op in ('define_class', 'from_name') and val != extra):
+                mism += 1
+                ctx.drift(f'registry behaviour {[b[0] + ":" + b[1] for b in beh]}: {op}({name}) -> {got}/{val}, the GVRegistry machine says {outcome}/{extra}')
+                break
+    ctx.add_counts(evaluations=n, traces=len(behs))
+    ctx.add_part('registry machine (GVRegistry) replayed on fresh registries', behaviours=len(behs), operations=n, mismatches=mism)
+
+
 def run(ctx, replay=None):
     rng = random.Random(ctx.seed)
     ctx.cov['rule'] = ('(i) every shipped file: packaged copy identical, id mapping, parse, build twice, input unchanged, and identical trajectories (digests) for two builds and '
@@ -202,6 +257,9 @@ def run(ctx, replay=None):
                        'distinct_nontrivial = corruptions + trajectory steps whose state changed')
     files = config.shipped_files()
     reg_files = config.registered_files()
+    import sys
+    sys.path.insert(0, os.path.join(boot.REPO, 'examples'))
+    import coin_env  # noqa: F401  (registers the custom components of the coin example)
     table, required, tres = spec_table(ctx)
     ctx.add_tlc(tres, 'GVConfig registry table')
     registry_drift(ctx, table, required)
@@ -405,6 +463,7 @@ def run(ctx, replay=None):
                 ctx.violation(f'reset factory({name}, {kw}) failed: {type(e).__name__}: {e}', {'kind': 'factory', 'name': name})
     ctx.add_counts(evaluations=n_f)
     ctx.add_part('component factories', components=n_f)
+    registry_part(ctx)
 
 
 if __name__ == '__main__':
